@@ -25,6 +25,7 @@ type globalConst struct {
 	reason   string
 	initVal  ssa.Value
 	emitted  bool
+	external bool
 	term     Term
 }
 
@@ -70,6 +71,20 @@ func (ci *constInfo) analyse(g *ssa.Global) *globalConst {
 			}
 		}
 	}
+	external := !strings.HasPrefix(g.Pkg.Pkg.Path(), ci.e.modPath)
+	if external {
+		// initialiser lives in the defining package's init function
+		if initFn := g.Pkg.Func("init"); initFn != nil {
+			for _, b := range initFn.Blocks {
+				for _, ins := range b.Instrs {
+					if st, isStore := ins.(*ssa.Store); isStore && st.Addr == ssa.Value(g) {
+						stores = append(stores, st)
+					}
+				}
+			}
+		}
+		gc.external = true
+	}
 	if !ok || len(stores) > 1 {
 		if gc.reason == "" {
 			gc.reason = "multiple initialising stores"
@@ -104,7 +119,9 @@ func (ci *constInfo) valueOf(fr *frame, g *ssa.Global) (Term, bool) {
 	gc.term = Term{sym(name), so}
 	vc.usedSpecs["const-global:"+g.Pkg.Pkg.Path()+"."+g.Name()] = true
 	if gc.initVal == nil {
-		vc.fact(eq(gc.term.S, ci.e.zeroValue(et).S))
+		if !gc.external {
+			vc.fact(eq(gc.term.S, ci.e.zeroValue(et).S))
+		}
 		return gc.term, true
 	}
 	ci.describe(gc.term, gc.initVal, et)
@@ -182,6 +199,10 @@ func (ci *constInfo) describe(t Term, v ssa.Value, ty types.Type) {
 	case *ssa.Call:
 		if f := x.Common().StaticCallee(); f != nil {
 			switch f.String() {
+			case "errors.New", "fmt.Errorf":
+				if t.Sort == SV {
+					vc.fact(fmt.Sprintf("(not (= %s vnil))", t.S))
+				}
 			case "regexp.MustCompile":
 				if c, ok := x.Common().Args[0].(*ssa.Const); ok && c.Value != nil {
 					vc.fact(fmt.Sprintf("(and (not (= %s 0)) (= (re_src %s) %s))", t.S, t.S, vc.strLit(constant.StringVal(c.Value)).S))
